@@ -466,6 +466,39 @@ def run(ctx):
                           (sorted(written), sd.split("::")[-1], sorted(fields - written)),
                           "writes all of %s" % sorted(fields))
     ctx.floor("R12.6", "bodies updating the per-group moving average", n6, 1)
+    # ------------------------------------------------------------------ R12.7 observations are counted in integers
+    # a per-entry counter kept in a float stops counting at 2^24 (f32) / 2^53 (f64): `x += 1.0` then leaves x unchanged, the recorded volume
+    # of a busy group is too low and its rate too high
+    n7 = 0
+    fcount = []
+    for b in F.all_bodies(W):
+        if "::tests::" in b.path or not b.path.replace("<", "").startswith(W + "::sample"):
+            continue
+        for i in b.live_blocks():
+            for st in b.stmts(i):
+                if st["k"] == "assign" and st["rv"]["k"] == "binop" and st["rv"]["op"] in ("Add", "AddWithOverflow", "AddUnchecked"):
+                    a_, b__ = st["rv"]["a"], st["rv"]["b"]
+                    for x_, k_ in ((a_, b__), (b__, a_)):
+                        kc = op_const(k_)
+                        pl = x_.get("copy") or x_.get("move")
+                        if kc is None or pl is None:
+                            continue
+                        is_field = bool(pl.get("p")) and pl["p"][-1][0] == "f"
+                        if not is_field:
+                            # `let t = self.f; t + 1` - follow one copy
+                            dd = [d for d in b.defs().get(pl["l"], []) if d[0] == "assign" and d[3]["rv"]["k"] == "use"]
+                            if len(dd) == 1:
+                                p2 = dd[0][3]["rv"]["op"].get("copy") or dd[0][3]["rv"]["op"].get("move")
+                                is_field = bool(p2 and p2.get("p") and p2["p"][-1][0] == "f")
+                        if is_field and ("int" in kc or "float" in kc):
+                            n7 += 1
+                            if "float" in kc or kc.get("ty") in ("f32", "f64"):
+                                fcount.append((b, i, kc.get("ty")))
+    ctx.check(not fcount, "R12.7", W + "::sample#counters-are-integers", loc(fcount[0][0], fcount[0][1]) if fcount else "",
+              "a per-entry counter is kept in floating point (`field += %s` in %s): it saturates at 2^24 / 2^53, after which the recorded volume of a busy "
+              "group stays too low and its sampling rate too high (budget exceeded)" % (fcount[0][2] if fcount else "", fcount[0][0].name if fcount else ""),
+              "%d constant increments of state fields, all on integer types" % n7)
+    ctx.floor("R12.7", "constant increments of sampler state fields", n7, 2)
     # the same update written with an internal-iteration adapter: `groups.values_mut().for_each(|g| g.sample_rate = ..)`
     for adt in gs:
         for cb in F.all_bodies(W):
